@@ -254,7 +254,7 @@ pub fn gen_matrix(rng: &mut SplitMix, max_dim: usize) -> MatCase {
 
 pub fn gen_matrix_n(rng: &mut SplitMix, n: usize) -> MatCase {
     let small = |r: &mut SplitMix| -> f64 { (r.below(17) as f64 - 8.0) / *r.pick(&[1.0, 2.0, 4.0, 3.0]) };
-    let class = rng.below(12);
+    let class = rng.below(13);
     let gram = |r: &mut SplitMix, cols: usize| -> Vec<f64> {
         let b: Vec<f64> = (0..n * cols).map(|_| small(r)).collect();
         let mut a = vec![0.0; n * n];
@@ -337,6 +337,32 @@ pub fn gen_matrix_n(rng: &mut SplitMix, n: usize) -> MatCase {
             let spread = *rng.pick(&[40i64, 150, 300, 480]);
             let s: Vec<f64> = (0..n).map(|_| exact::scale2(1.0, rng.below(2 * spread as u64 + 1) as i64 - spread)).collect();
             (sym_from_upper(n, &mut |i, j| (a[i * n + j] + if i == j { 1.0 } else { 0.0 }) * s[i] * s[j]), "wide_range_scaled")
+        }
+        11 => {
+            // well-conditioned everywhere except a small ill-conditioned block placed at
+            // the end, the start or anywhere: the residual of the inverse lives in a few
+            // rows / columns only (a test that looks at part of the product misses it)
+            let k = rng.range(1, 3.min(n as u64)) as usize;
+            let at = match rng.below(3) {
+                0 => n - k,
+                1 => 0,
+                _ => rng.below((n - k + 1) as u64) as usize,
+            };
+            let eps = exact::scale2(1.0, -(rng.range(20, 50) as i64));
+            let d: Vec<f64> = (0..n).map(|_| *rng.pick(&[1.0, 1.0, 2.0, 0.5, 3.0])).collect();
+            (
+                sym_from_upper(n, &mut |i, j| {
+                    let inb = |x: usize| x >= at && x < at + k;
+                    if inb(i) && inb(j) {
+                        if i == j { 1.0 } else { 1.0 - eps }
+                    } else if i == j {
+                        d[i]
+                    } else {
+                        0.0
+                    }
+                }),
+                "ill_conditioned_block",
+            )
         }
         _ => {
             // random uniform entries, dominant diagonal
@@ -814,6 +840,10 @@ impl C16 {
                 // which is sampled for these sizes)
                 let n = rng.range(9, 12) as usize;
                 gen_matrix_n(&mut rng, n)
+            } else if rng.chance(1, 48) {
+                // far beyond: 13..24 (fixed-size buffers, 16-wide blocking)
+                let n = rng.range(13, 24) as usize;
+                gen_matrix_n(&mut rng, n)
             } else {
                 gen_matrix(&mut rng, 8)
             };
@@ -828,6 +858,11 @@ impl C16 {
                     if dist.is_finite() && dist > 8.0 * slack && dist > 0.0 {
                         tols.push(Some((0.5 * dist).to_bits()));
                         tols.push(Some((0.8 * dist).to_bits()));
+                    }
+                    // closer still where the rounding slack is far below the distance
+                    // (a test that sees most but not all of the residual)
+                    if dist.is_finite() && dist > 40.0 * slack && dist > 0.0 {
+                        tols.push(Some((0.95 * dist).to_bits()));
                     }
                 }
             }
@@ -861,7 +896,7 @@ impl C16 {
                 arith_none.iter().copied().filter(|&i| is_relevant(i)).collect()
             } else {
                 let mut r: Vec<u64> = Vec::new();
-                let want = if thorough { 160 } else { 48 };
+                let want = if mat.dim > 12 { 12 } else if thorough { 160 } else { 48 };
                 let mut tries = 0;
                 while r.len() < want && tries < 3 * want && !arith_none.is_empty() {
                     tries += 1;
@@ -896,7 +931,7 @@ impl C16 {
                         }
                     }
                 } else {
-                    let nf = if thorough { 400 } else { 120 };
+                    let nf = if mat.dim > 12 { 24 } else if thorough { 400 } else { 120 };
                     for _ in 0..nf {
                         let k = allowed[rng.below(allowed.len() as u64) as usize];
                         let mut fs = vec![Fault { at: k, kind: *rng.pick(FAULT_KINDS) }];
@@ -1134,7 +1169,11 @@ impl Property for C16 {
             let faults = &faults_now;
             if faults.len() == 1 {
                 let at = faults[0].at;
-                for k in 0..at {
+                // every earlier event for short traces; 400 evenly spread ones for
+                // long traces (a run of a 20x20 matrix has ~1e5 events and an exact
+                // oracle behind it)
+                let cand: Vec<u64> = if at <= 400 { (0..at).collect() } else { (0..400).map(|i| i * at / 400).collect() };
+                for k in cand {
                     let mut c = case.clone();
                     match &mut c {
                         Case::Direct { faults, .. } | Case::Sample { faults, .. } => faults[0].at = k,
